@@ -4,6 +4,7 @@
 //             instead of hashed; 2 = C02 case, only the spec side cares; a = allocation trace token "t:.." after every op;
 //             n = no spec line)
 //   i<key>.<tag>  insert a new element           r<key>  remove (reports out and next)
+//   I<key>.<tag>  insert a new element represented by the NULL pointer (if no such element is stored already)
 //   f<key>        find                            c / C   clear with / without destroy callback
 //   w             walk begin..end                 O<bits> allocation script (1 = succeed), then all succeed
 //   b<key>        lower_bound, tree comparator    p<key>  lower_bound, wildcard comparator (key/16 equal)
@@ -235,6 +236,15 @@ static void put_trace(VAlloc* va, Buf* sb)
 }
 
 // ---------------------------------------------------------------- callbacks
+// Elements are opaque pointers, so NULL is a legitimate element.  Op 'I' inserts its element REPRESENTED BY THE NULL
+// POINTER (at most one at a time); comparators, the destroy callback and the readers map NULL back to that element.
+static Elt* null_elt;
+
+static inline Elt* elt_of(const void* p)
+{
+  return p ? (Elt*)p : null_elt;
+}
+
 static int  tree_ud, lb_ud, destroy_ud;
 static int  ud_bad, roles_bad;
 static Seq  cmplog;
@@ -245,8 +255,8 @@ static size_t dlen, dcap;
 
 static int tree_cmp(const void* a, const void* b, const void* ud)
 {
-  const Elt* x = (const Elt*)a;
-  const Elt* y = (const Elt*)b;
+  const Elt* x = elt_of(a);
+  const Elt* y = elt_of(b);
   if (ud != &tree_ud) {
     ud_bad = 1;
   }
@@ -266,8 +276,8 @@ static void check_roles(const Elt* x, const Elt* y, const void* ud)
 
 static int lb_cmp(const void* a, const void* b, const void* ud)
 {
-  const Elt* x = (const Elt*)a;
-  const Elt* y = (const Elt*)b;
+  const Elt* x = elt_of(a);
+  const Elt* y = elt_of(b);
   check_roles(x, y, ud);
   seq_add(&cmplog, x->tag);
   return (x->key > y->key) - (x->key < y->key);
@@ -275,8 +285,8 @@ static int lb_cmp(const void* a, const void* b, const void* ud)
 
 static int wild_cmp(const void* a, const void* b, const void* ud)
 {
-  const Elt* x = (const Elt*)a;
-  const Elt* y = (const Elt*)b;
+  const Elt* x = elt_of(a);
+  const Elt* y = elt_of(b);
   check_roles(x, y, ud);
   seq_add(&cmplog, x->tag);
   const int xh = x->key >> 4, yh = y->key >> 4;
@@ -285,7 +295,7 @@ static int wild_cmp(const void* a, const void* b, const void* ud)
 
 static void destroy_cb(void* p, const void* ud)
 {
-  Elt* x = (Elt*)p;
+  Elt* x = elt_of(p);
   if (ud != &destroy_ud) {
     ud_bad = 1;
   }
@@ -327,7 +337,7 @@ static void put_tag_or_end(Buf* b, const ZixBTreeIter it)
   if (zix_btree_iter_is_end(it)) {
     bprintf(b, "end");
   } else {
-    bprintf(b, "%d", ((const Elt*)zix_btree_get(it))->tag);
+    bprintf(b, "%d", elt_of(zix_btree_get(it))->tag);
   }
 }
 
@@ -426,6 +436,7 @@ static void run_case(char** tok, int ntok)
   char*  script = NULL;
   ud_bad = roles_bad = 0;
   dlen = 0;
+  null_elt = NULL;
 
   va.tracing = tracing;
   int first_op = 0;
@@ -452,7 +463,8 @@ static void run_case(char** tok, int ntok)
     const char* op = tok[k];
     seq_init(&cmplog);
     switch (op[0]) {
-    case 'i': {
+    case 'i':
+    case 'I': {
       int key = 0, tag = 0;
       sscanf(op + 1, "%d.%d", &key, &tag);
       Elt* e = (Elt*)malloc(sizeof(Elt));
@@ -460,7 +472,12 @@ static void run_case(char** tok, int ntok)
       e->tag = tag;
       e->stored = 0;
       arena[n_arena++] = e;
-      const ZixStatus st = zix_btree_insert(t, e);
+      void* ptr = e;
+      if (op[0] == 'I' && !(null_elt && null_elt->stored)) {
+        null_elt = e; // this element is the NULL pointer from now on
+        ptr      = NULL;
+      }
+      const ZixStatus st = zix_btree_insert(t, ptr);
       if (st == ZIX_STATUS_SUCCESS) {
         e->stored = 1;
       }
@@ -474,9 +491,9 @@ static void run_case(char** tok, int ntok)
       ZixBTreeIter    next = zix_btree_end_iter;
       const ZixStatus st = zix_btree_remove(t, &probe, &out, &next);
       bprintf(&ob, "r:%s:", stname(st));
-      if (st == ZIX_STATUS_SUCCESS && out) {
-        ((Elt*)out)->stored = 0;
-        bprintf(&ob, "%d", ((Elt*)out)->tag);
+      if (st == ZIX_STATUS_SUCCESS && elt_of(out)) {
+        elt_of(out)->stored = 0;
+        bprintf(&ob, "%d", elt_of(out)->tag);
       } else {
         bprintf(&ob, "-");
       }
@@ -543,7 +560,7 @@ static void run_case(char** tok, int ntok)
       unsigned depth = 0;
       long     count = 0;
       for (ZixBTreeIter it = zix_btree_begin(t); !zix_btree_iter_is_end(it); zix_btree_iter_increment(&it)) {
-        const Elt* x = (const Elt*)zix_btree_get(it);
+        const Elt* x = elt_of(zix_btree_get(it));
         seq_add(&tags, x->tag);
         seq_add(&shape, x->tag);
         seq_add(&shape, it.level);
@@ -587,7 +604,7 @@ static void run_case(char** tok, int ntok)
       seq_init(&tags);
       ZixStatus last = ZIX_STATUS_SUCCESS;
       while (!zix_btree_iter_is_end(it)) {
-        seq_add(&tags, ((const Elt*)zix_btree_get(it))->tag);
+        seq_add(&tags, elt_of(zix_btree_get(it))->tag);
         last = zix_btree_iter_increment(&it);
       }
       bprintf(&ob, "s:%ld:%s:%s ", tags.n, seq_str(&tags, tmp), tags.n ? stname(last) : "-");
